@@ -67,7 +67,7 @@ pub fn get() -> FunctionDefinitions {
                             } else {
                                 last_index
                             };
-                            let str = str[start..last_index].to_string();
+                            let str = str.get(start..last_index)?.to_string();
                             Some(str.into())
                         }
                     }
